@@ -175,3 +175,15 @@ Definition shower_scale (profile rac : R -> R -> R) (times : list R) (energy the
 Definition arz_scale (times : list R) (emE hadE dist psi n t0 : R) : R :=
   shower_scale ARZ_em_shower_profile_default ARZAskaryanSignal_em_shower_RAC times emE (Rabs psi) dist n t0
   + shower_scale ARZ_had_shower_profile_default ARZAskaryanSignal_had_shower_RAC times hadE (Rabs psi) dist n t0.
+
+(* ---------------------------------------------------------------- FunctionSignal layer (second step after construction)
+   A FunctionSignal is a grid plus the function the constructor handed over; `.values` applies the function to the
+   CURRENT grid, `with_times` (grid not contained in the old one: no buffers) replaces the grid and keeps the function,
+   `+` of two function signals keeps both functions.  The constructors hand over the closure  ts |-> X_values ts params. *)
+Record fsignal := mk_fsignal { fs_times : list R; fs_fun : list R -> list R }.
+Definition fs_values (s : fsignal) : list R := fs_fun s (fs_times s).
+Definition fs_with_times (s : fsignal) (times' : list R) : fsignal := mk_fsignal times' (fs_fun s).
+Definition fs_add (a b : fsignal) : fsignal := mk_fsignal (fs_times a) (fun ts => map2 Rplus (fs_fun a ts) (fs_fun b ts)).
+Definition zhs_signal times E d psi n t0 : fsignal := mk_fsignal times (fun ts => zhs_values ts E d psi n t0).
+Definition avz_signal times emE hadE emf hadf d psi n t0 : fsignal := mk_fsignal times (fun ts => avz_values ts emE hadE emf hadf d psi n t0).
+Definition arz_signal times emE hadE d psi n t0 : fsignal := mk_fsignal times (fun ts => arz_values ts emE hadE d psi n t0).
